@@ -5,6 +5,7 @@ signatures (stand-in tool) vs Model.Response, plus the documented rule itself
 as an implementation-level oracle."""
 import itertools
 
+import c02x
 import env
 import pipeline
 from pipeline import A, R, SPCase
@@ -12,15 +13,20 @@ from core import Exn
 from env import NOW
 
 CLAIM = {
-    "text": "Coq theorem C02_accept_iff (Props/C02.v), proved for EVERY configuration, clock, response content and signature state of the pipeline model (not by enumerating the table): is_ok(parse_response c r) = otherwise_valid c r && documented c r, where documented = every present signature verifies && (want_response_signed -> response signed) && (want_assertions_signed -> every assertion read is signed) && (want_assertions_or_response_signed -> response signed || every assertion signed), and otherwise_valid is the pipeline's own non-signature part on the signature-stripped document; corollaries: a present invalid signature is never ignored, a missing required signature is never compensated. The proof goes through the force-require / catch / retry structure of Entity._parse_response including the state the failed first attempt leaves behind. Tie: the full 8 x 4 x 2 x corruption table (plus multi-assertion and default-option variants) on implementation and model every run.",
-    "note": "Trusted: Coq kernel + vm_compute; pipeline model tied to the code by the exhaustive table; 'verifies' is the outcome of _check_signature with the stand-in xmlsec1 (real RSA; real xmlsec1 is not installed) — what a positive verdict covers is C01's subject; <Advice> assertions are outside the model.",
-    "technique": "machine-checked proof (Coq, case analysis over the retry structure + state-insensitivity lemmas) + exhaustive-table correspondence + oracle",
+    "text": "Coq theorems in Props/C02.v. C02_accept_iff, proved for EVERY configuration, clock, response content and signature state of the pipeline model (not by enumerating the table): is_ok(parse_response c r) = otherwise_valid c r && documented c r, where documented = every present signature verifies && (want_response_signed -> response signed) && (want_assertions_signed -> every assertion read is signed) && (want_assertions_or_response_signed -> response signed || every assertion signed), and otherwise_valid is the pipeline's own non-signature part on the signature-stripped document; corollaries: a present invalid signature is never ignored, a missing required signature is never compensated. The proof goes through the force-require / catch / retry structure of Entity._parse_response including the state the failed first attempt leaves behind. C02_options_from_sp_section / C02_config_class_irrelevant / C02_other_sections_irrelevant / C02_client_accept_iff: the three options a client works with are the explicit values of the sp section (booleans or the strings true/false), else the defaults (true, false, false), for EVERY configuration class (def_context sp, empty, idp ...) and whatever other roles the configuration serves, and the iff holds for the client built from it. C02_history (+ _accept_iff, _state_irrelevant, _invalid_never_accepted, _no_compensation), by induction over operation sequences of the state-passing client model (SetOpts / Parse; state = options, cached subjects, identifiers and signature values seen): the verdict of a step depends only on that step's message and the options in force, for every prefix and client state - so a tampered copy reusing the ID and SignatureValue of an accepted message is refused exactly as on a fresh client. Tie: the full 8 x 4 x 2 x corruption table (plus multi-assertion and default-option variants); the 27 (absent/False/True)^3 option sections x 4 configuration layouts (SPConfig / generic Config, sp only / sp+idp) + string values + config_factory + IdPConfig, each x 4 signing states x {plain, encrypted}; and histories on long-lived clients (one per option setting and class; one client whose options change between steps; eight clients on ONE SecurityContext) walking every tampered / re-digested / same-ID message kind directly before and after its genuine twin - implementation vs model at every step, every run.",
+    "note": "Trusted: Coq kernel + vm_compute; pipeline and client models tied to the code by the tables and histories; 'verifies' is the outcome of _check_signature with the stand-in xmlsec1 (real RSA and digests; real xmlsec1 is not installed) - what a positive verdict covers is C01's subject; the harness derives each message's signature verdicts from what it signed and edited; <Advice> assertions are outside the model; histories are sampled (seeded), the tables are exhaustive.",
+    "technique": "machine-checked proof (Coq: case analysis over the retry structure + state-insensitivity lemmas; induction over operation sequences; configuration store lemmas) + exhaustive-table and history correspondence on long-lived objects + oracle",
 }
 TRUSTED = ["modelled: Entity._parse_response retry structure, correctly_signed_response, AuthnResponse._assertion signature branch, decrypt_assertions signature check (Model/Response.v)",
+           "modelled: Config.setattr/getattr/load_special/load, Base.__init__ option resolution, the client as a SetOpts/Parse state machine (Model/Client.v); the three option names are arguments of the sp section (config.SP_ARGS - checked every run)",
            "stand-in xmlsec1 signs and verifies (harness/tools/xmlsec_core.py)"]
-ASSUMPTIONS = ["signature verdicts are inputs of the model (Some (Ok tt) / Some (Err SignatureError) / None); the harness derives them from what it signed and corrupted"]
+ASSUMPTIONS = ["signature verdicts are inputs of the model (Some (Ok tt) / Some (Err SignatureError) / None); the harness derives them from what it signed, corrupted, edited after signing or spliced in from another message",
+               "SetOpts on one client = assigning client.want_*; on a shared SecurityContext = switching to the client configured with those options"]
 RULE = ("cells = 8 option settings (+ options left at their defaults) x response sig {none, valid, corrupt, wrong key} x assertion sig {none, valid, corrupt, wrong key} "
-        "x {plain, encrypted, encrypted-unopenable, two encrypted} x k identities; every cell is non-trivial (distinct coordinates)")
+        "x {plain, encrypted, encrypted-unopenable, two encrypted} x k identities; configuration table = {SPConfig, Config} x {sp, sp+idp} x {absent, False, True}^3 "
+        "(+ true/false strings, config_factory, IdPConfig) x 4 signing states x {plain, encrypted} x {genuine, one non-genuine kind}; histories = per (class, option setting) "
+        "client: every group's G,v,G,v,... over all kinds {tamper-nameid, tamper-attr, redigest, same-id-unsigned, same-id-resigned, corrupt-R/A, wrongkey-R/A, fresh-id}; "
+        "mixed-option walks on one client and on eight clients sharing one SecurityContext; every step is non-trivial (distinct session, position, message, options)")
 
 SIGS = [None, "valid", "corrupt", "wrongkey"]
 
@@ -36,6 +42,12 @@ def documented(wrs, was, waors, rsig, asigs):
 def run(ctx):
     env.tool_inprocess(True)
     cases = []
+    for v in HCASES.values():
+        del v[:]
+    from saml2_tophat import config as _cfgmod
+    for name in c02x.OPT_NAMES:
+        if name not in _cfgmod.SPEC["sp"]:
+            ctx.oracle_fail("config-spec:%s" % name, "%s is no longer an argument of the sp section (config.SPEC): the option cannot be configured" % name, {"option": name})
     k = 2 if ctx.quick else 10
     idents = [{"urn:oid:2.5.4.42": ["Anna"]}, {"urn:oid:2.5.4.42": ["Björn", "<b>&"], "urn:oid:0.9.2342.19200300.100.1.3": ["b@example.org"]}]
     for i in range(k - 2):
@@ -107,13 +119,165 @@ def run(ctx):
             cases.append(dict(id=n, coq=coq, impl=got if isinstance(got, list) else Exn("rejected"), show=cell))
             n += 1
             ctx.nontriv(("defaults", rsig, asig))
+        config_classes(ctx)
+        histories(ctx)
     ctx.exhaustive = True
     ctx.correspond("sp_pipeline_signature_table", pipeline.IMPORTS, pipeline.MODEL_ACCEPT, pipeline.CTYPE, cases, shard=150)
+    for unit, per_case in (("client_configuration_table", 12), ("client_histories", 9)):
+        ctx.correspond(unit, HIMPORTS, HMODEL, HCTYPE, _bundles(ctx, unit, per_case), shard=1)
+
+
+HIMPORTS = "Model.Status Model.Response Model.Client"
+HMODEL = "show_sessions"
+HCTYPE = "((cfg * list (wire * response)) * list ((str * list (str * section)) * list step))"
+HCASES = {"client_configuration_table": [], "client_histories": []}
+GROUPS = [(shape, rs, as_) for shape in ("plain", "encrypted") for rs in (False, True) for as_ in (False, True)]
+
+
+def _step(ctx, s, key, unit, prev, got_list):
+    """one Parse step on session s: run, oracle (the documented rule under the options in force), bookkeeping"""
+    m, got = s.parse(key)
+    got_list.append(c02x.observable(got))
+    want = c02x.documented(s.opts, m.rsig, m.asig)
+    shape, rs, as_, ident, kind = key
+    ctx.count("%s:%s:%s" % ("cfg" if unit == "client_configuration_table" else "hist", kind,
+                            "accepted" if isinstance(got, list) else "rejected"))
+    ctx.nontriv((unit, s.cls, s.roles, tuple(sorted(s.section.items())), s.mode, len(s.steps), key, s.opts))
+    if isinstance(got, list) != want:
+        if unit == "client_configuration_table":
+            okey = "config:%s:roles=%s:section=%s:%s:R=%s:A=%s:%s" % (
+                s.cls, "+".join(s.roles), ",".join("%s=%r" % (n[5:], s.section[n]) for n in c02x.OPT_NAMES if n in s.section) or "defaults",
+                shape, rs, as_, kind)
+        else:
+            okey = "history:%s:%s:opts=%s:%s>%s:%s:R=%s:A=%s" % (s.mode, s.cls, "".join("TF"[not b] for b in s.opts), prev, kind, shape, rs, as_)
+        ctx.oracle_fail(okey, "%s although the documented rule says %s (options in force wrs/was/waors=%s; message: %s, response sig %s, assertion sig %s)"
+                        % ("accepted" if isinstance(got, list) else "rejected (%s)" % got, "accept" if want else "refuse",
+                           s.opts, kind, m.rsig, m.asig), {"script": s.script()})
+    return kind
+
+
+def _flush(ctx, s, unit, first_step, got_list, show):
+    """the steps s.steps[first_step:] as one model session (the real client lives on)"""
+    if got_list:
+        HCASES[unit].append(dict(client=s.client_coq(), call=s.call_coq(), steps=s.steps[first_step:], impl=list(got_list),
+                                 show=dict(show, cls=s.cls, roles=list(s.roles), section=s.section, mode=s.mode)))
+
+
+def _bundles(ctx, unit, per_case):
+    """model cases: `per_case` consecutive chunks over ONE pool of messages (each message term is written once)"""
+    cases, chunks = [], HCASES[unit]
+    for k in range(0, len(chunks), per_case):
+        part = chunks[k:k + per_case]
+        pool, index, sessions = [], {}, []
+        for ch in part:
+            steps = []
+            for st in ch["steps"]:
+                if "set" in st:
+                    steps.append("SSet {| o_wrs := %s; o_was := %s; o_waors := %s |}" % tuple("true" if b else "false" for b in st["set"]))
+                else:
+                    key = tuple(st["msg"])
+                    if key not in index:
+                        index[key] = len(pool)
+                        m = c02x.message(*key)
+                        pool.append("(%s, %s)" % (m.wire, m.coq))
+                    steps.append("SParse (%d)%%nat" % index[key])
+            sessions.append("(%s, [%s])" % (ch["client"], "; ".join(steps)))
+        coq = "((%s, [%s]), [%s])" % (part[0]["call"], ";\n  ".join(pool), ";\n  ".join(sessions))
+        cases.append(dict(id=len(cases), coq=coq, impl=[ch["impl"] for ch in part],
+                          show=[dict(ch["show"], steps=ch["steps"]) for ch in part]))
+        ctx.evaluations += sum(len(ch["impl"]) for ch in part) - 1     # every step is compared
+    return cases
+
+
+def config_classes(ctx):
+    """(b) every configuration class / section layout x every option absent / False / True (and as strings)
+    x {none, response, assertion, both} signed x {plain, encrypted}: genuine + one non-genuine message per cell"""
+    unit = "client_configuration_table"
+    raw = [None, False, True]
+    layouts = [("SPConfig", ("sp",)), ("Config", ("sp",)), ("Config", ("sp", "idp")), ("SPConfig", ("sp", "idp")),
+               ("Config", ("sp", "aa", "pdp")), ("SPConfig", ("sp", "aq"))]
+    sections = [dict((n, v) for n, v in zip(c02x.OPT_NAMES, xs) if v is not None) for xs in itertools.product(raw, repeat=3)]
+    todo = [(cls, roles, sec) for cls, roles in layouts for sec in sections]
+    # the strings true / false (load_special turns them into booleans), and two more ways to get a configuration object
+    strs = [dict(zip(c02x.OPT_NAMES, xs)) for xs in itertools.product(["false", "true"], repeat=3)]
+    todo += [(cls, ("sp",), sec) for cls in ("SPConfig", "Config") for sec in strs]
+    expl = [dict(zip(c02x.OPT_NAMES, xs)) for xs in itertools.product([False, True], repeat=3)]
+    todo += [(cls, ("sp", "idp"), sec) for cls in ("config_factory", "IdPConfig") for sec in expl + [{}]]
+    others = ["tamper-nameid", "same-id-unsigned", "redigest", "tamper-attr", "same-id-resigned"]
+    for n, (cls, roles, sec) in enumerate(todo):
+        s = c02x.Session(cls, sec, roles)
+        got_list, prev = [], "-"
+        groups = list(GROUPS)
+        ctx.rng.shuffle(groups)
+        for j, (shape, rs, as_) in enumerate(groups):
+            prev = _step(ctx, s, (shape, rs, as_, 0, "genuine"), unit, prev, got_list)
+            prev = _step(ctx, s, (shape, rs, as_, 0, others[(n + j) % len(others)]), unit, prev, got_list)
+        _flush(ctx, s, unit, 0, got_list, dict(part="configuration"))
+        if n % 60 == 0:
+            ctx.sample(dict(configuration=dict(cls=cls, roles=roles, section=sec), options_in_force=s.opts,
+                            verdicts=["accepted" if isinstance(g, list) else "rejected" for g in got_list]))
+
+
+def _walk_group(ctx, s, group, ident, unit, variants_per_genuine=1):
+    """G, v, G, v, G ... over every variant of the group, in random order: every variant directly after the genuine
+    message it shares identifiers / signature values with, and the genuine one directly after every variant"""
+    shape, rs, as_ = group
+    kinds = [k for k in c02x.kinds_for(rs, as_) if k != "genuine"]
+    ctx.rng.shuffle(kinds)
+    first, got_list, prev = len(s.steps), [], "-"
+    for i, k in enumerate(kinds):
+        if i % variants_per_genuine == 0:
+            prev = _step(ctx, s, (shape, rs, as_, ident, "genuine"), unit, prev, got_list)
+        prev = _step(ctx, s, (shape, rs, as_, ident, k), unit, prev, got_list)
+    _step(ctx, s, (shape, rs, as_, ident, "genuine"), unit, prev, got_list)
+    _flush(ctx, s, unit, first, got_list, dict(part="history", group=list(group)))
+
+
+def histories(ctx):
+    """(a) long-lived objects: every message kind before and after the genuine message it shares identifiers and
+    signature values with, on ONE client per option setting and configuration class; then walks in which the
+    options change between steps (one client) and in which eight clients share ONE SecurityContext"""
+    unit = "client_histories"
+    reps = 1 if ctx.quick else 4
+    for cls in ("SPConfig", "Config"):
+        for opts in itertools.product([False, True], repeat=3):
+            s = c02x.Session(cls, dict(zip(c02x.OPT_NAMES, opts)))
+            for rep in range(reps):
+                groups = list(GROUPS)
+                ctx.rng.shuffle(groups)
+                for g in groups:
+                    _walk_group(ctx, s, g, ctx.rng.randint(0, 1), unit)
+    allopts = list(itertools.product([False, True], repeat=3))
+    nchunks = 40 if ctx.quick else 300
+    for mode, cls in (("one-client", "SPConfig"), ("one-client", "Config"), ("shared-sec", "SPConfig"), ("shared-sec", "Config")):
+        s = c02x.Session(cls, {}, mode=mode)
+        for chunk in range(nchunks):
+            first, got_list, prev = len(s.steps), [], "-"
+            for _ in range(3):
+                shape, rs, as_ = ctx.rng.choice(GROUPS)
+                ident = ctx.rng.randint(0, 1)
+                kinds = [k for k in c02x.kinds_for(rs, as_) if k != "genuine"]
+                # accept the genuine one under some options, present the other one under (usually) other options — both orders
+                pair = [(shape, rs, as_, ident, "genuine"), (shape, rs, as_, ident, ctx.rng.choice(kinds))]
+                if ctx.rng.random() < 0.35:
+                    pair.reverse()
+                for key in pair:
+                    if ctx.rng.random() < 0.7 or not got_list:
+                        s.set(ctx.rng.choice(allopts))
+                    prev = _step(ctx, s, key, unit, prev, got_list)
+            # a chunk starts with a SetOpts, so the model case does not depend on how the session was configured
+            _flush(ctx, s, unit, first, got_list, dict(part="mixed-options"))
+        if s.steps:
+            ctx.sample(dict(mode=mode, cls=cls, first_steps=s.steps[:8]))
 
 
 def replay(ctx, payload):
     env.tool_inprocess(True)
     cell = payload.get("input")
+    if isinstance(cell, dict) and "script" in cell:
+        print("replay of a session on long-lived object(s); the last step is the failing one")
+        c02x.replay_script(cell["script"])
+        return 0
     print("replay cell:", cell)
     if not isinstance(cell, dict) or "shape" not in cell:
         return 0
